@@ -204,7 +204,7 @@ func c07Mutate(rng *rand.Rand, s string) string {
 
 func c07Long() []string {
 	n := verifkit.Pick(20000, 200000) // flat inputs
-	d := 2500                          // nested inputs: printing a tree is quadratic in its depth, keep that far below the watchdog
+	d := 2500                         // nested inputs: printing a tree is quadratic in its depth, keep that far below the watchdog
 	var graded []string
 	for _, k := range []int{10, 14, 18} {
 		graded = append(graded, strings.Repeat("( ", k)+"a"+strings.Repeat(" )", k), strings.Repeat("-( ", k)+"a"+strings.Repeat(" )", k),
@@ -333,6 +333,9 @@ func c07Inputs(t *testing.T) []c07Input {
 			continue
 		}
 		for k, s := range c07Render(sc.Toks) {
+			if k == 1 && len(sc.Toks) > 4 && sc.Family == "damage" {
+				continue // the longest damaged sequences (thorough tier) in one spelling only
+			}
 			add("query", sc.Family, []string{"spaced", "tight"}[k], sc.WF, s)
 			if sc.WF && len(wellFormed) < 4000 {
 				wellFormed = append(wellFormed, s)
@@ -346,11 +349,11 @@ func c07Inputs(t *testing.T) []c07Input {
 	for _, p := range c07Protos {
 		add("proto", "proto", p, false, p)
 	}
-	for _, s := range c07RandomStrings(verifkit.EnvInt("C07_RANDOM", verifkit.Pick(2000, 60000))) {
+	for _, s := range c07RandomStrings(verifkit.EnvInt("C07_RANDOM", verifkit.Pick(2000, 20000))) {
 		add("query", "random", "bytes", false, s)
 	}
 	if len(wellFormed) > 0 {
-		for i, n := 0, verifkit.EnvInt("C07_MUTANTS", verifkit.Pick(1500, 40000)); i < n; i++ {
+		for i, n := 0, verifkit.EnvInt("C07_MUTANTS", verifkit.Pick(1500, 10000)); i < n; i++ {
 			rng := verifkit.Rng(int64(4_000_000 + i))
 			add("query", "random", "mutant", false, c07Mutate(rng, wellFormed[rng.Intn(len(wellFormed))]))
 		}
